@@ -134,3 +134,100 @@ def seq_at(seq, i):
 
 def seq_len(seq):
     return len(seq)
+# ---------------------------------------------------------------------------
+# numeral spellings (C06).  Native meaning: a hand-written character scanner and
+# the positional-value sum; written from the grammar
+#     [sign] [prefix] ( D+ [ '.' D+ ] | '.' D+ ) [ marker [sign] d+ ]
+# and deliberately independent of `re`, of int(), of float() and of fpy2.
+
+_DIGITS10 = '0123456789'
+_DIGITS16 = '0123456789abcdef'
+
+
+def _scan_digits(s, i, alphabet):
+    j = i
+    while j < len(s) and s[j] in alphabet:
+        j += 1
+    return s[i:j], j
+
+
+def _numeral_groups(s, prefix, alphabet, marker):
+    """(matches, neg, I, F, eneg, E); surrounding whitespace is ignored, absent parts are ''"""
+    bad = (False, False, '', '', False, '')
+    s = s.strip()
+    i = 0
+    neg = False
+    if i < len(s) and s[i] in '+-':
+        neg = s[i] == '-'
+        i += 1
+    if s[i:i + len(prefix)] != prefix:
+        return bad
+    i += len(prefix)
+    I, i = _scan_digits(s, i, alphabet)
+    F = ''
+    if i < len(s) and s[i] == '.':
+        F, i = _scan_digits(s, i + 1, alphabet)
+        if F == '':
+            return bad
+    elif I == '':
+        return bad
+    eneg, E = False, ''
+    if i < len(s) and s[i] == marker:
+        i += 1
+        if i < len(s) and s[i] in '+-':
+            eneg = s[i] == '-'
+            i += 1
+        E, i = _scan_digits(s, i, _DIGITS10)
+        if E == '':
+            return bad
+    if i != len(s):
+        return bad
+    return (True, neg, I, F, eneg, E)
+
+
+def dec_groups(s):
+    return _numeral_groups(s, '', _DIGITS10, 'e')
+
+
+def hex_groups(s):
+    return _numeral_groups(s, '0x', _DIGITS16, 'p')
+
+
+def dval(d, base):
+    """positional value of a digit string: sum d_i * base^(n-1-i); 0 for ''"""
+    alphabet = _DIGITS16 if base == 16 else _DIGITS10
+    v = 0
+    for ch in d:
+        v = v * base + alphabet.index(ch)
+    return v
+
+
+def dlen(d):
+    return len(d)
+
+
+def frac_den(x):
+    """denominator (lowest terms, positive) of an int or Fraction"""
+    return x.denominator
+
+
+def frac_num(x):
+    return x.numerator
+
+
+def cons_name(v):
+    """class name of a node built by an external constructor (Python `ast` nodes)"""
+    return type(v).__name__
+
+
+def float_rounds_to(x, v):
+    """the float v is the binary64 nearest to the rational x >= 0 (ties to even, overflow to inf): the value
+    CPython gives a float literal denoting x.  int/int true division is correctly rounded in CPython."""
+    x = Fraction(x)
+    if x < 0 or not isinstance(v, float):
+        return False
+    try:
+        f = x.numerator / x.denominator
+    except OverflowError:
+        f = float('inf')
+    return f == v
